@@ -101,7 +101,8 @@ int main(int argc, char** argv) {
                         pos += sizes[i]; if (i > 400) break; }
                 else rtAll = 0;
                 ZSTD_freeCDict(cd); ZSTD_freeDDict(dd); ZSTD_freeCCtx(c); ZSTD_freeDCtx(dc); }
-            if (nbThreads <= 1) { gd2 = galloc((size_t)cap); r2 = train_once(algo, &gd2, (size_t)cap, k, d, f, accel, steps, split100 / 100.0, shrink, nbThreads, level);
+            if (nbThreads <= 1) { gd2 = galloc((size_t)cap); fprintf(T, "{\"e\":\"tbegin\",\"algo\":\"%s\",\"nbThreads\":%u}\n", algo, nbThreads);   /* (the repetition is a new optimiser call: new accounting) */
+                r2 = train_once(algo, &gd2, (size_t)cap, k, d, f, accel, steps, split100 / 100.0, shrink, nbThreads, level);
                 repeatSame = (ZDICT_isError(r) && ZDICT_isError(r2)) || (r == r2 && (isErr || r > (size_t)cap || !memcmp(gd.p, gd2.p, r))); gfree(&gd2); }
             fprintf(T, "{\"e\":\"train\",\"algo\":\"%s\",\"kind\":\"%s\",\"nb\":%u,\"total\":%zu,\"cap\":%ld,\"k\":%u,\"d\":%u,\"f\":%u,\"accel\":%u,\"steps\":%u,\"split\":%u,\"shrink\":%u,\"nbThreads\":%u,\"isErr\":%s,\"err\":\"%s\",\"size\":%zu,\"loadsC\":%s,\"loadsD\":%s,\"idDict\":%u,\"idC\":%u,\"idD\":%u,\"rtAll\":%s,\"rtFail\":%d,\"repeatSame\":%s}\n",
                     algo, sKind, nbSamples, totalSize, cap, k, d, f, accel, steps, split100, shrink, nbThreads, isErr ? "true" : "false", isErr ? ZDICT_getErrorName(r) : "", isErr ? 0 : r, loadsC ? "true" : "false", loadsD ? "true" : "false",
